@@ -12,6 +12,8 @@ macro_rules! common_list {
             "or_refs" => (&a | &b, a | &b, &a | b),
             "xor_refs" => (&a ^ &b, a ^ &b, &a ^ b),
             "not_ref" => !&a,
+            // both operands are the same object (an implementation may compare addresses): (a & a, a | a, a ^ a) must be (a, a, 0)
+            "self_refs" => (&a & &a, &a | &a, &a ^ &a),
             "and_assign" => { let mut x = a; x &= b; let mut y = a; y &= &b; (x, y) },
             "or_assign" => { let mut x = a; x |= b; let mut y = a; y |= &b; (x, y) },
             "xor_assign" => { let mut x = a; x ^= b; let mut y = a; y ^= &b; (x, y) },
